@@ -603,6 +603,7 @@ package main
 //@ func ParseFromSpec
 //@   props C16 C08 C14
 //@   ensures err == nil ==> result != nil && fresh(result)
+//@   ensures one-form: err == nil ==> result.nameAddr != nil || result.addrSpec != nil
 //@   ensures err != nil ==> result == nil
 //@   ensures bare-absolute-uri: err == nil && !contains(s, "<") && !hasPrefix(s, "sip:") && !hasPrefix(s, "sips:") ==>
 //@        result.nameAddr == nil && result.addrSpec != nil && result.addrSpec.sipURI == nil && result.addrSpec.absoluteURI != nil
@@ -611,6 +612,7 @@ package main
 //@ func ParseTo
 //@   props C16 C08 C14
 //@   ensures err == nil ==> result != nil && fresh(result)
+//@   ensures one-form: err == nil ==> result.nameAddr != nil || result.addrSpec != nil
 //@   ensures err != nil ==> result == nil
 //@   ensures bare-absolute-uri: err == nil && !contains(s, "<") && !hasPrefix(s, "sip:") && !hasPrefix(s, "sips:") ==>
 //@        result.nameAddr == nil && result.addrSpec != nil && result.addrSpec.sipURI == nil && result.addrSpec.absoluteURI != nil
@@ -1509,6 +1511,7 @@ package main
 //@   props C14
 //@   uses kvtext
 //@   modifies W
+//@   ensures buffer-never-fails: isType(writer, "*bytes.Buffer") ==> err == nil
 //@   ensures verbatim: isType(writer, "*bytes.Buffer") ==> W[refOf(writer)] == old(W[refOf(writer)]) + kvText(kv)
 //@   ensures only-this-writer: forall w int :: w != refOf(writer) ==> W[w] == old(W[w])
 
@@ -1560,6 +1563,7 @@ package main
 //@   uses kvtext addrtext
 //@   modifies W
 //@   ensures text: isType(writer, "*bytes.Buffer") ==> W[refOf(writer)] == old(W[refOf(writer)]) + nameAddrText(na)
+//@   ensures buffer-never-fails: isType(writer, "*bytes.Buffer") ==> err == nil
 //@   ensures only-this-writer: forall w int :: w != refOf(writer) ==> W[w] == old(W[w])
 
 //@ func (*RouteParam).Write
@@ -1567,6 +1571,7 @@ package main
 //@   uses kvtext addrtext
 //@   modifies W
 //@   ensures text: isType(writer, "*bytes.Buffer") && err == nil ==> W[refOf(writer)] == old(W[refOf(writer)]) + nameAddrText(r.nameAddr) + kvSeqText(";", r.rrParam, len(r.rrParam))
+//@   ensures buffer-never-fails: isType(writer, "*bytes.Buffer") ==> err == nil
 //@   ensures only-this-writer: forall w int :: w != refOf(writer) ==> W[w] == old(W[w])
 //@   loop 0:
 //@     invariant forall w int :: w != refOf(writer) ==> W[w] == old(W[w])
@@ -1578,9 +1583,11 @@ package main
 //@   uses kvtext addrtext
 //@   modifies W
 //@   ensures text: result == viaParamText(vp)
+//@   ensures existing-writers-kept: forall w int :: !fresh(w) ==> W[w] == old(W[w])
 //@   loop 0:
 //@     invariant 0 <= $i && $i <= len(vp.Params)
 //@     invariant W[buf] == viaHeadText(vp) + kvSeqText(";", vp.Params, $i)
+//@     invariant forall w int :: !fresh(w) ==> W[w] == old(W[w])
 
 //@ func ParseAddrSpec
 //@   props C14
@@ -1622,3 +1629,102 @@ package main
 //@   ensures only-this-writer: forall w int :: !fresh(w) && w != refOf(writer) ==> W[w] == old(W[w])
 //@   ensures wire-format: isType(writer, "*bytes.Buffer") ==> W[refOf(writer)] == old(W[refOf(writer)]) + firstLineText(m) + hdrsText(m.headers, len(m.headers))
 //@        + "Content-Length: " + itoa(len(m.body)) + "\r\n\r\n" + m.body
+
+// ---- list printers (C14): comma-joined entries, each entry through its own text function ----
+//@ func (*Via).String
+//@   props C14
+//@   uses kvtext addrtext listtext
+//@   modifies W
+//@   ensures text: result == viaSeqText(v.params, len(v.params))
+//@   ensures existing-writers-kept: forall w int :: !fresh(w) ==> W[w] == old(W[w])
+//@   loop 0:
+//@     invariant 0 <= $i && $i <= len(v.params)
+//@     invariant W[buf] == viaSeqText(v.params, $i)
+//@     invariant forall w int :: !fresh(w) ==> W[w] == old(W[w])
+
+//@ func (*NameAddr).String
+//@   props C14
+//@   uses kvtext addrtext
+//@   modifies W
+//@   ensures text: result == nameAddrText(na)
+//@   ensures existing-writers-kept: forall w int :: !fresh(w) ==> W[w] == old(W[w])
+
+//@ func (*RouteParam).String
+//@   props C14
+//@   uses kvtext addrtext listtext
+//@   modifies W
+//@   ensures text: result == routeParamText(r)
+//@   ensures existing-writers-kept: forall w int :: !fresh(w) ==> W[w] == old(W[w])
+
+//@ func (*Route).Write
+//@   props C14
+//@   uses kvtext addrtext listtext
+//@   modifies W
+//@   ensures text: isType(writer, "*bytes.Buffer") && err == nil ==> W[refOf(writer)] == old(W[refOf(writer)]) + routeSeqText(r.routeParams, len(r.routeParams))
+//@   ensures only-this-writer: forall w int :: !fresh(w) && w != refOf(writer) ==> W[w] == old(W[w])
+//@   loop 0:
+//@     invariant 0 <= $i && $i <= len(r.routeParams)
+//@     invariant isType(writer, "*bytes.Buffer") ==> W[refOf(writer)] == old(W[refOf(writer)]) + routeSeqText(r.routeParams, $i)
+//@     invariant forall w int :: !fresh(w) && w != refOf(writer) ==> W[w] == old(W[w])
+
+//@ func (*RecRoute).String
+//@   props C14
+//@   uses kvtext addrtext listtext
+//@   modifies W
+//@   ensures text: result == recRouteText(r)
+//@   ensures existing-writers-kept: forall w int :: !fresh(w) ==> W[w] == old(W[w])
+//@   loop 0:
+//@     invariant 0 <= $i && $i <= len(r.rrParam)
+//@     invariant W[buf] == nameAddrText(r.nameAddr) + kvSeqText(";", r.rrParam, $i)
+//@     invariant forall w int :: !fresh(w) ==> W[w] == old(W[w])
+
+//@ func (*RecordRoute).String
+//@   props C14
+//@   uses kvtext addrtext listtext
+//@   modifies W
+//@   ensures text: result == recRouteSeqText(r.recRoute, len(r.recRoute))
+//@   ensures existing-writers-kept: forall w int :: !fresh(w) ==> W[w] == old(W[w])
+//@   loop 0:
+//@     invariant 0 <= $i && $i <= len(r.recRoute)
+//@     invariant W[buf] == recRouteSeqText(r.recRoute, $i)
+//@     invariant forall w int :: !fresh(w) ==> W[w] == old(W[w])
+
+//@ func (*FromSpec).String
+//@   props C14
+//@   uses kvtext addrtext listtext
+//@   modifies W
+//@   ensures text: result == fromHeadText(fs) + kvSeqText(";", fs.params, len(fs.params))
+//@   ensures existing-writers-kept: forall w int :: !fresh(w) ==> W[w] == old(W[w])
+//@   loop 0:
+//@     invariant 0 <= $i && $i <= len(fs.params)
+//@     invariant W[buf] == fromHeadText(fs) + kvSeqText(";", fs.params, $i)
+//@     invariant forall w int :: !fresh(w) ==> W[w] == old(W[w])
+
+//@ func (*To).String
+//@   props C14
+//@   uses kvtext addrtext listtext
+//@   assume one-form: t.nameAddr != nil || t.addrSpec != nil
+//@   modifies W
+//@   ensures text: result == toHeadText(t) + kvSeqText(";", t.params, len(t.params))
+//@   ensures existing-writers-kept: forall w int :: !fresh(w) ==> W[w] == old(W[w])
+//@   loop 0:
+//@     invariant 0 <= $i && $i <= len(t.params)
+//@     invariant W[buf] == toHeadText(t) + kvSeqText(";", t.params, $i)
+//@     invariant forall w int :: !fresh(w) ==> W[w] == old(W[w])
+
+//@ func parseUriHeader
+//@   props C14
+//@   uses kvtext split
+//@   modifies sipUri.Headers
+//@   ensures kept: forall j int :: 0 <= j && j < len(old(sipUri.Headers)) ==> sipUri.Headers[j] == old(sipUri.Headers)[j]
+//@   ensures each-denotes: err == nil ==> len(sipUri.Headers) == len(old(sipUri.Headers)) + len(split(s, "&")) && (forall j int :: 0 <= j && j < len(split(s, "&")) ==> contains(split(s, "&")[j], "=") && sipUri.Headers[len(old(sipUri.Headers)) + j] == kvOfText(split(s, "&")[j]))
+//@   loop 0:
+//@     invariant 0 <= $i && $i <= len(split(s, "&")) && len(sipUri.Headers) == len(old(sipUri.Headers)) + $i
+//@     invariant forall j int :: 0 <= j && j < len(old(sipUri.Headers)) ==> sipUri.Headers[j] == old(sipUri.Headers)[j]
+//@     invariant forall j int :: 0 <= j && j < $i ==> contains(split(s, "&")[j], "=") && sipUri.Headers[len(old(sipUri.Headers)) + j] == kvOfText(split(s, "&")[j])
+
+//@ func (*CSeq).Write
+//@   props C14
+//@   modifies W
+//@   ensures text: isType(writer, "*bytes.Buffer") ==> W[refOf(writer)] == old(W[refOf(writer)]) + itoa(cs.Seq) + " " + cs.Method
+//@   ensures only-this-writer: forall w int :: w != refOf(writer) ==> W[w] == old(W[w])
